@@ -268,7 +268,7 @@ class Gen:
     def scenario(self, which=None):
         r = self.r
         scen = which or r.choice(["single", "single", "multi", "announce", "concurrent", "message", "ephemeral",
-                                  "locks", "dup", "fees", "aggsig", "unknown", "malformed", "ff", "limits"])
+                                  "locks", "locks2", "locks2", "dup", "fees", "aggsig", "unknown", "malformed", "ff", "limits"])
         spends = getattr(self, "sc_" + scen)()
         std = True
         if isinstance(spends, tuple):
@@ -404,6 +404,25 @@ class Gen:
                 shape = "valid" if r.chance(7, 8) else r.choice(["negative", "oversize", "redundant-zero"])
                 s["conds"].append(self.cond(name, [canon(v)], shape, int_idx=0)); s["tags"].append((name, shape))
             spends.append(s)
+        return spends
+
+    def sc_locks2(self):
+        """the same lock kind several times with different values in random order (exercises the max/min folds,
+        the before/after pairs of one family, and both relative and absolute scopes across spends)"""
+        r = self.r
+        fam = r.choice([("ASSERT_SECONDS_RELATIVE", "ASSERT_BEFORE_SECONDS_RELATIVE", 8), ("ASSERT_HEIGHT_RELATIVE", "ASSERT_BEFORE_HEIGHT_RELATIVE", 4),
+                        ("ASSERT_SECONDS_ABSOLUTE", "ASSERT_BEFORE_SECONDS_ABSOLUTE", 8), ("ASSERT_HEIGHT_ABSOLUTE", "ASSERT_BEFORE_HEIGHT_ABSOLUTE", 4),
+                        ("ASSERT_MY_BIRTH_SECONDS", "ASSERT_MY_BIRTH_SECONDS", 8), ("ASSERT_MY_BIRTH_HEIGHT", "ASSERT_MY_BIRTH_HEIGHT", 4)])
+        spends = [self.new_spend(parent=r.bytes(32)) for _ in range(1 + r.below(2))]
+        base = r.choice([0, 1, 50, 1000, (1 << (8 * fam[2])) - 10])
+        afters = [base + r.below(5) for _ in range(r.below(4))]
+        lo = max(afters + [base]) + (1 if r.chance(3, 4) else 0)
+        befores = [lo + r.below(6) for _ in range(r.below(4))]
+        items = [(fam[0], v) for v in afters] + [(fam[1], v) for v in befores]
+        r.shuffle(items)
+        for name, v in items:
+            s = r.choice(spends)
+            s["conds"].append(self.cond(name, [canon(v)])); s["tags"].append((name, "multi"))
         return spends
 
     def sc_dup(self):
